@@ -20,18 +20,18 @@ theorem termAt_some {l : List LEntry} {k : Nat} (h0 : 0 < k) (hk : k ≤ l.lengt
   unfold termAt
   rw [if_neg (by omega), List.getElem?_eq_getElem hlt]
 
-theorem lc_core (c0 : Cfg) (hne : c0.incoming ≠ [] ∨ c0.outgoing ≠ []) (s : PSys) (hL : InvL s) (hA : InvA s)
+theorem lc_core (cp ce : Cfg) (hadj : adjOk cp ce = true) (s : PSys) (hL : InvL s) (hA : InvA s)
     (hll : ∀ t, ∃ r, s.llog t = s.elog t ++ r ∧ (∀ e ∈ r, e.term = t) ∧ (∀ e ∈ s.elog t, e.term < t))
     (h2 : InvC2 s)
     (t0 c : Nat) (hc : 0 < c) (hlen : c ≤ (s.llog t0).length) (hterm : termAt (s.llog t0) c = t0)
-    (q : List Nat) (hq : c0.isQuorum q = true)
+    (q : List Nat) (hq : cp.isQuorum q = true)
     (hacks : ∀ v ∈ q, ∃ a ∈ s.acks, a.term = t0 ∧ a.frm = v ∧ c ≤ a.idx)
     (t : Nat) (ht : t0 < t) (j : Nat) (E : List LEntry) (hE : PFL s.llog E) (hEt : ∀ e ∈ E, e.term < t)
-    (Q : List Nat) (hQ : c0.isQuorum Q = true)
+    (Q : List Nat) (hQ : ce.isQuorum Q = true)
     (hgr : ∀ v ∈ Q, ∃ gh, ((⟨t, v, j⟩ : Grant), gh) ∈ s.rgv ∧ gh.early = true ∧
         upToDate (lastTerm E) E.length gh.vlog = true)
     (hnc : NClt s t0 c t) : E.take c = (s.llog t0).take c := by
-  obtain ⟨w, hw1, hw2⟩ := Cfg.quorums_intersect c0 hne q Q hq hQ
+  obtain ⟨w, hw1, hw2⟩ := adj_intersect cp ce hadj q Q hq hQ
   obtain ⟨a, ha, hat, haf, hai⟩ := hacks w hw1
   obtain ⟨gh, hgh, hearly, hup⟩ := hgr w hw2
   have hsub := hA.sub a ha
@@ -95,46 +95,31 @@ theorem lc_core (c0 : Cfg) (hne : c0.incoming ≠ [] ∨ c0.outgoing ≠ []) (s 
       omega
     rw [hElast, List.take_take, Nat.min_eq_left hlenE]; exact hncT
 
-/-- **Leader Completeness for any quorum-acknowledged own-term entry**, in any state that satisfies
-the shape of the ghost logs, the election records and the retention of acknowledged prefixes in the
-voters' recorded logs: by induction on the later leader's term. -/
-theorem lc_quorum (c0 : Cfg) (hne : c0.incoming ≠ [] ∨ c0.outgoing ≠ []) (s : PSys) (hL : InvL s) (hA : InvA s)
-    (hB : InvB c0 s) (h2 : InvC2 s)
-    (t0 c : Nat) (hc : 0 < c) (hlen : c ≤ (s.llog t0).length) (hterm : termAt (s.llog t0) c = t0)
-    (q : List Nat) (hq : c0.isQuorum q = true)
-    (hacks : ∀ v ∈ q, ∃ a ∈ s.acks, a.term = t0 ∧ a.frm = v ∧ c ≤ a.idx) :
-    ∀ t, t0 < t → Elected s t → (s.elog t).take c = (s.llog t0).take c := by
-  intro t
+/-- **Leader Completeness** for the recorded leader commits, in any state that satisfies the shape of
+the ghost logs, the election records, the retention of acknowledged prefixes in the voters' recorded
+logs and the quorum evidence of the commits: by induction on the later leader's term.  For a commit
+and an election decided under configurations whose quorums meet (`adjOk`: equal configurations,
+consecutive configurations of a membership change) this is the classical argument (`lc_core`); for
+any other pair P's guards have validated the conclusion when the later of the two events happened
+(`InvC3.gd`). -/
+theorem invLC_of (s : PSys) (hL : InvL s) (hA : InvA s)
+    (hB : InvB s) (h2 : InvC2 s) (h3 : InvC3 s) : InvLC s := by
+  intro p hp t
   induction t using Nat.strongRecOn with
   | _ t ih =>
     intro hlt hel
+    obtain ⟨hc, hlen, hterm, _, cp, q, hcp, hq, hacks⟩ := h3.cq p hp
     obtain ⟨j, hj⟩ := hel
-    obtain ⟨Q, hQ, hgr⟩ := hB.eq (t, j) hj
-    have hnc : NClt s t0 c t := by
-      intro t' h1 h2' h3'
-      have := ih t' h2' h1 h3'
-      obtain ⟨r, hr, _, _⟩ := hB.ll t'
-      rw [hr, List.take_append_of_le_length (len_of_take_eq this hlen)]; exact this
-    exact lc_core c0 hne s hL hA hB.ll h2 t0 c hc hlen hterm q hq hacks t hlt j (s.elog t)
-      (hL.pfl _ (Or.inr (Or.inr (Or.inr (Or.inr (Or.inr ⟨t, rfl⟩))))))
-      (by obtain ⟨r, _, _, h⟩ := hB.ll t; exact h) Q hQ hgr hnc
-
-/-- the same for the ghost log of the later term -/
-theorem lc_quorum_llog (c0 : Cfg) (hne : c0.incoming ≠ [] ∨ c0.outgoing ≠ []) (s : PSys) (hL : InvL s) (hA : InvA s)
-    (hB : InvB c0 s) (h2 : InvC2 s)
-    (t0 c : Nat) (hc : 0 < c) (hlen : c ≤ (s.llog t0).length) (hterm : termAt (s.llog t0) c = t0)
-    (q : List Nat) (hq : c0.isQuorum q = true)
-    (hacks : ∀ v ∈ q, ∃ a ∈ s.acks, a.term = t0 ∧ a.frm = v ∧ c ≤ a.idx)
-    (t : Nat) (ht : t0 < t) (hel : Elected s t) : (s.llog t).take c = (s.llog t0).take c := by
-  have := lc_quorum c0 hne s hL hA hB h2 t0 c hc hlen hterm q hq hacks t ht hel
-  obtain ⟨r, hr, _, _⟩ := hB.ll t
-  rw [hr, List.take_append_of_le_length (len_of_take_eq this hlen)]; exact this
-
-/-- Leader Completeness for the recorded leader commits -/
-theorem invLC_of (c0 : Cfg) (hne : c0.incoming ≠ [] ∨ c0.outgoing ≠ []) (s : PSys) (hL : InvL s) (hA : InvA s)
-    (hB : InvB c0 s) (h2 : InvC2 s) (h3 : InvC3 c0 s) : InvLC s := by
-  intro p hp t hlt hel
-  obtain ⟨hc, hlen, hterm, _, q, hq, hacks⟩ := h3.cq p hp
-  exact lc_quorum c0 hne s hL hA hB h2 p.1 p.2 hc hlen hterm q hq hacks t hlt hel
+    obtain ⟨ce, Q, hce, hQ, hgr⟩ := hB.eq (t, j) hj
+    rcases h3.gd (p, cp) hcp (t, ce) hce hlt with hadj | hdirect
+    · have hnc : NClt s p.1 p.2 t := by
+        intro t' h1 h2' h3'
+        have := ih t' h2' h1 h3'
+        obtain ⟨r, hr, _, _⟩ := hB.ll t'
+        rw [hr, List.take_append_of_le_length (len_of_take_eq this hlen)]; exact this
+      exact lc_core cp ce hadj s hL hA hB.ll h2 p.1 p.2 hc hlen hterm q hq hacks t hlt j (s.elog t)
+        (hL.pfl _ (Or.inr (Or.inr (Or.inr (Or.inr (Or.inr ⟨t, rfl⟩))))))
+        (by obtain ⟨r, _, _, h⟩ := hB.ll t; exact h) Q hQ hgr hnc
+    · exact hdirect
 
 end RaftModel.P
